@@ -64,6 +64,7 @@ inductive Event where
   | none
   | created (id : Nat) (ix : Ix)
   | approved (id : Nat) (by_ : Nat)
+  | approvedBatch (ids : List Nat) (by_ : Nat)
   | cancelled (id : Nat)
   | executed (id : Nat) (ix : Ix)
   deriving DecidableEq, Repr
@@ -74,6 +75,7 @@ inductive Op where
   | create (now : Int) (caller id r prog numAcc dataLen actualLen : Nat) (data : String)
       (signers : List Nat) (accs : List (Nat × Bool))
   | approve (now : Int) (caller id r : Nat)
+  | approveb (now : Int) (caller r : Nat) (ids : List Nat)
   | cancel (now : Int) (caller id r rr : Nat)
   | exec (now : Int) (caller id r rr : Nat)
   | delay (now : Int) (caller delta : Nat)
@@ -99,6 +101,16 @@ def approve (s : St) (now : Int) (caller id r : Nat) : Option St :=
     if b.approved then none else
     if b.approver.isSome then none else
     some (setBuf s id (some { b with approved := true, approvedAt := now, approver := some caller }))
+
+/-- `approve_instructions` (batch over the remaining accounts): `validate_timelocked_role` for the executor named by
+`r`, then for every buffer in order: it must belong to THAT executor (`require_keys_eq!(header.executor, executor)`)
+and `InstructionHeader::approve` must succeed. Any failing buffer aborts the transaction, so the batch is all or
+nothing (a buffer listed twice fails at its second occurrence). All buffers get the same clock value. -/
+def approveBatch (s : St) (now : Int) (caller r : Nat) : List Nat → Option St
+  | [] => if s.mem caller (tld r) then some s else none
+  | id :: ids => match approve s now caller id r with
+    | some s' => approveBatch s' now caller r ids
+    | none => none
 
 def cancel (s : St) (caller id r rr : Nat) : Option St :=
   match s.bufs id with
@@ -150,6 +162,10 @@ def step (s : St) : Op → St × Event
     match approve s now caller id r with
     | some s' => (s', .approved id caller)
     | none => (s, .none)
+  | .approveb now caller r ids =>
+    match approveBatch s now caller r ids with
+    | some s' => (s', .approvedBatch ids caller)
+    | none => (s, .none)
   | .cancel _ caller id r rr =>
     match cancel s caller id r rr with
     | some s' => (s', .cancelled id)
@@ -169,6 +185,38 @@ def run (s : St) : List Op → St × List Event
     (rest.1, r.2 :: rest.2)
 
 def init (delay : Nat) : St := ⟨delay, fun _ _ => false, fun _ => none⟩
+
+/-! ## ghost: did the approver hold the buffer's OWN timelocked role when approving?
+
+The property says "approved by a holder of the corresponding role". The program stores only the approver and the time;
+the ghost `held id` records, at the moment buffer `id` is approved (singly or in a batch), whether the approver held the
+timelocked role of the executor THE BUFFER BELONGS TO (`tld b.role` — read from the buffer, not from the role named in
+the call). It is computed independently of the checks `approve` makes. -/
+
+def heldNow (s : St) (a id : Nat) : Bool :=
+  match s.bufs id with | some b => s.mem a (tld b.role) | none => false
+
+structure GSt where
+  s : St
+  held : Nat → Bool
+
+def gstep (g : GSt) (op : Op) : GSt × Event :=
+  let r := step g.s op
+  let held : Nat → Bool := match r.2 with
+    | .approved id a => fun i => if i = id then heldNow g.s a id else g.held i
+    | .approvedBatch ids a => fun i => if ids.contains i then heldNow g.s a i else g.held i
+    | .created id _ => fun i => if i = id then false else g.held i
+    | _ => g.held
+  (⟨r.1, held⟩, r.2)
+
+def grun (g : GSt) : List Op → GSt × List Event
+  | [] => (g, [])
+  | op :: ops =>
+    let r := gstep g op
+    let rest := grun r.1 ops
+    (rest.1, r.2 :: rest.2)
+
+def ginit (delay : Nat) : GSt := ⟨init delay, fun _ => false⟩
 
 /-! ## which accounts an instruction is handed (account binding)
 
